@@ -93,3 +93,14 @@ Theorem si_stream_fresh_twin :
     C03.Model.started K s1 = false /\ C03.Model.started K s2 = false.
 Proof. exact si_stream_fresh_twin_l. Qed.
 Print Assumptions si_stream_fresh_twin.
+
+(* ---- tie of the short-integration model to the source (see C03/Props.v, coq/C03/Tie.v) ---- *)
+Require Verif.C03.Tie.
+Theorem si_model_is_source :
+  forall (K : Type) (kzero : K) (kadd kmul : K -> K -> K) (phi post : K -> K)
+         (c : C03.Model.cfg K) (st : C03.Model.state K) (d : C03.Model.dtype) (ch : list K),
+  C03.Tie.preamble_src K kzero c st d = C03.Model.preamble K kzero c st d /\
+  C03.Tie.chunk_body_src K kzero kadd kmul phi post c st ch = C03.Model.chunk_body K kzero kadd kmul phi post c st ch /\
+  C03.Tie.finalize_src K kzero kadd kmul phi post c st = C03.Model.finalize K kzero kadd kmul phi post c st.
+Proof. exact C03.Tie.history_tie. Qed.
+Print Assumptions si_model_is_source.
